@@ -198,6 +198,24 @@ def gen_cond(rng, depth=2):
     return "(" + gen_cond(rng, depth - 1) + ")"
 
 
+def gen_nstmt(rng):
+    """statements on the 12-row table n whose rows depend on LIMIT/OFFSET forms and function-call decorations"""
+    a, b = rng.randint(0, 6), rng.randint(1, 6)
+    lim = rng.choice(["LIMIT %d" % b, "LIMIT %d OFFSET %d" % (b, a), "LIMIT %d, %d" % (a, b), "LIMIT %d + 1, %d" % (a, b),
+                      "LIMIT %d OFFSET %d - 1" % (b, a + 1), ""])
+    cond = rng.choice(["v > %d" % a, "g = %d" % rng.randint(1, 3), "v %% 2 = %d" % rng.randint(0, 1), "s IS NOT NULL", "v BETWEEN %d AND %d" % (a, a + b)])
+    r = rng.random()
+    if r < 0.5:
+        return "SELECT v, g FROM n WHERE %s ORDER BY %s %s" % (rng.choice(["v > 0", cond, "NOT (%s)" % cond]),
+                                                              rng.choice(["v", "v DESC", "g, v", "g DESC NULLS LAST, v"]), lim)
+    f = rng.choice(["count(*)", "count(*) FILTER (WHERE %s)" % cond, "count(DISTINCT g)", "count(DISTINCT g) FILTER (WHERE %s)" % cond,
+                    "sum(v) FILTER (WHERE %s)" % cond, "sum(DISTINCT g)", "total(v)", "max(v, g)", "min(v) FILTER (WHERE %s)" % cond,
+                    "group_concat(DISTINCT g)", "count(s)", "avg(v) FILTER (WHERE %s)" % cond])
+    if r < 0.75 or "max(v, g)" in f:
+        return "SELECT %s FROM n%s" % (f, "" if "max(v, g)" not in f else " ORDER BY v " + lim)
+    return "SELECT g, %s FROM n GROUP BY g%s ORDER BY g %s" % (f, rng.choice(["", " HAVING count(*) > 2", " HAVING %s > 1" % f]), lim)
+
+
 def gen_stmt(rng):
     r = rng.random()
     sel = rng.choice(["*", "a, b", "a + b * 2 AS s, c", '"select", "null" AS "from"', "count(*), max(a)", "t.*", "DISTINCT b",
@@ -248,6 +266,41 @@ CORPUS_S = ['SELECT "select" FROM t', 'SELECT "null", "true" FROM t', 'SELECT a 
 CORPUS_X = ["SELECT - -a FROM t", 'SELECT "null" FROM t', 'SELECT "select" FROM t WHERE "Not" = 1', "SELECT a - - -b FROM t",
             "UPDATE t SET a = - -a WHERE b = 5", 'SELECT a FROM t ORDER BY "select" DESC', 'SELECT "my col", "Not" FROM t WHERE NOT "Not"',
             'UPDATE t SET "null" = \'v\' WHERE "null" IS NULL', 'DELETE FROM t WHERE "select" > 25', "SELECT a FROM t WHERE c = 'y''z'"]
+# one executable statement per printed field of the statement trees; the result (or the final table contents)
+# of each depends on that field being written back
+FIELD_X = [
+    "SELECT v FROM n ORDER BY v LIMIT 3", "SELECT v FROM n ORDER BY v LIMIT 3 OFFSET 5", "SELECT v FROM n ORDER BY v LIMIT 5, 3",
+    "SELECT v FROM n ORDER BY v LIMIT 2 + 1, 4 - 1", "SELECT v FROM n ORDER BY v DESC LIMIT 2, 100", "SELECT v FROM n ORDER BY v LIMIT -1 OFFSET 9",
+    "SELECT count(*) FILTER (WHERE v > 4) FROM n", "SELECT g, count(*) FILTER (WHERE v % 2 = 0), count(*) FROM n GROUP BY g ORDER BY g",
+    "SELECT count(DISTINCT g), count(g), sum(DISTINCT g) FROM n", "SELECT count(DISTINCT g) FILTER (WHERE v > 6) FROM n",
+    "SELECT sum(v) FILTER (WHERE g = 2) FROM n", "SELECT max(v, g), min(v, 5) FROM n ORDER BY v", "SELECT group_concat(s, '-') FROM n WHERE v < 4",
+    "SELECT count(*), count(s) FROM n", "SELECT DISTINCT g FROM n ORDER BY g", "SELECT ALL g FROM n ORDER BY g, v",
+    "SELECT g AS grp, count(*) AS c FROM n GROUP BY g HAVING count(*) > 3 ORDER BY grp", "SELECT g, v % 2, count(*) FROM n GROUP BY g, v % 2 ORDER BY 1, 2",
+    "SELECT v FROM n WHERE g = 1 UNION ALL SELECT v FROM n WHERE v < 3 ORDER BY v", "SELECT v FROM n WHERE g = 1 UNION SELECT v FROM n WHERE v < 6 ORDER BY v",
+    "SELECT v FROM n WHERE g = 1 INTERSECT SELECT v FROM n WHERE v < 6 ORDER BY v", "SELECT v FROM n EXCEPT SELECT v FROM n WHERE g = 1 ORDER BY v DESC LIMIT 4",
+    "WITH RECURSIVE r (i) AS (SELECT 1 UNION ALL SELECT i + 1 FROM r WHERE i < 5) SELECT i FROM r ORDER BY i",
+    "WITH w (p, q) AS (SELECT v, g FROM n WHERE v > 8), z AS (SELECT 1 AS one) SELECT q, p, one FROM w, z ORDER BY p",
+    "SELECT x.v, x.dbl FROM (SELECT v, v * 2 AS dbl FROM n WHERE g = 3) AS x ORDER BY x.v", "SELECT m.v FROM n AS m WHERE m.g = 2 ORDER BY m.v",
+    "SELECT n.v, u.d FROM n JOIN u ON n.v = u.a ORDER BY n.v", "SELECT n.v, u.d FROM n LEFT JOIN u ON n.v = u.a WHERE n.v < 5 ORDER BY n.v",
+    "SELECT t.a, u.d FROM t JOIN u USING (a) ORDER BY t.a", "SELECT a, d FROM t NATURAL JOIN u ORDER BY a", "SELECT count(*) FROM t CROSS JOIN u",
+    "SELECT n.v, u.a, t.b FROM n JOIN u ON n.v = u.a LEFT JOIN t ON t.a = u.a ORDER BY n.v",
+    "SELECT v FROM n INDEXED BY n_g WHERE g = 2 ORDER BY v", "SELECT v FROM n NOT INDEXED WHERE g = 2 ORDER BY v",
+    "SELECT s FROM n ORDER BY s COLLATE NOCASE DESC, v", "SELECT g, v FROM n ORDER BY g NULLS FIRST, v DESC", "SELECT g, v FROM n ORDER BY g DESC NULLS LAST, v",
+    "SELECT s FROM n ORDER BY s NULLS LAST", "SELECT v, (SELECT count(*) FROM n AS i WHERE i.g = n.g) FROM n ORDER BY v",
+    "INSERT INTO k (w, c) VALUES ('p', 5), ('q', 6)", "INSERT INTO k (w) VALUES ('only')", "INSERT INTO k DEFAULT VALUES",
+    "INSERT OR IGNORE INTO k (id, w, c) VALUES (1, 'dup', 9), (9, 'nine', 9)", "INSERT OR REPLACE INTO k (id, w, c) VALUES (1, 'rep', 9)",
+    "REPLACE INTO k (id, w, c) VALUES (2, 'rep2', 8)", "INSERT INTO k (w, c) SELECT s, v FROM n WHERE v > 10",
+    "INSERT INTO k (w, c) VALUES ('x', 10) ON CONFLICT (w) DO NOTHING", "INSERT INTO k (w, c) VALUES ('x', 10) ON CONFLICT DO NOTHING",
+    "INSERT INTO k (w, c) VALUES ('x', 10), ('new', 1) ON CONFLICT (w) DO UPDATE SET c = c + excluded.c",
+    "INSERT INTO k (w, c) VALUES ('x', 10), ('y', 20) ON CONFLICT (w) DO UPDATE SET c = excluded.c WHERE excluded.c > 15",
+    "INSERT INTO k (w, c) VALUES ('r', 4) RETURNING id, w AS word, c * 2", "WITH src AS (SELECT 'cte' AS w) INSERT INTO k (w) SELECT w FROM src",
+    "UPDATE n SET g = g + 10 WHERE v > 9", "UPDATE n SET g = 0, s = 'z' WHERE v IN (1, 2)", "UPDATE n SET (g, s) = (5, 'five') WHERE v = 5",
+    "UPDATE OR IGNORE k SET w = 'x' WHERE id > 1", "UPDATE OR REPLACE k SET w = 'x' WHERE id = 3", "UPDATE n SET s = u.d FROM u WHERE u.a = n.v",
+    "UPDATE k SET c = c * 2 WHERE id < 3 RETURNING id, c", "UPDATE n AS m SET g = 9 WHERE m.v = 3",
+    "WITH big AS (SELECT v FROM n WHERE v > 10) UPDATE n SET g = -1 WHERE v IN (SELECT v FROM big)",
+    "DELETE FROM n WHERE g = 2", "DELETE FROM k WHERE id = 2 RETURNING w, c", "DELETE FROM n", "DELETE FROM n AS m WHERE m.v > 6",
+    "WITH big AS (SELECT v FROM n WHERE v > 10) DELETE FROM n WHERE v IN (SELECT v FROM big)",
+]
 KNOWN_FUNC = "SELECT \"My Func\"(1)"
 
 
@@ -311,7 +364,8 @@ def run(ck):
     exprs = list(CORPUS_E) + [gen_expr(rng, rng.randint(1, 4)) for _ in range(ne)]
     mal = [gen_malformed(rng) for _ in range(nm)]
     stmts = [(0, s) for s in CORPUS_S] + [(1, s) for s in CORPUS_S[:6]] + [(rng.choice([0, 0, 1]), gen_stmt(rng)) for _ in range(ns)]
-    execs = list(CORPUS_X) + [gen_stmt(rng) for _ in range(nx)]
+    execs = list(CORPUS_X) + FIELD_X + [gen_stmt(rng) if rng.random() < 0.6 else gen_nstmt(rng) for _ in range(nx)]
+    stmts += [(d, s) for s in FIELD_X for d in (0, 1)]
     known_probe = [(0, KNOWN_FUNC)]
     if ck.replay_file:
         rp = json.load(open(ck.replay_file))["replay"]
@@ -393,7 +447,10 @@ def run(ck):
         "expressions_accepted": sum(1 for r in RE if r.get("ok")),
         "statements": len(stmts), "statements_accepted": sum(1 for r in RS if r.get("ok")),
         "postgres_dialect": sum(1 for d, _ in stmts if d == 1),
-        "executed_on_sqlite": nexec, "exec_generated": len(execs)}
+        "executed_on_sqlite": nexec, "exec_generated": len(execs),
+        "field_corpus_executed": sum(1 for s, r in zip(execs, RX) if s in FIELD_X and r.get("ok") and r.get("r1") != "error"),
+        "field_corpus_size": len(FIELD_X)}
+    ck.cov["input_distribution"]["field_corpus_not_executed"] = [s for s, r in zip(execs, RX) if s in FIELD_X and not (r.get("ok") and r.get("r1") != "error")][:20]
     for e, r in list(zip(allE, RE))[40:43]:
         ck.sample({"expr": e, "accepted": r.get("ok"), "formatted": hx(r.get("fmt"))})
     for (d, s), r in list(zip(stmts, RS))[25:28]:
